@@ -405,7 +405,7 @@ func (a *allowerContext) update(provider AuthEventProvider) {
 		a.createEvent, a.powerLevelsEvent, a.joinRuleEvent = nil, nil, nil
 	}
 	if e, _ := provider.Create(); a.createEvent == nil || a.createEvent != e {
-		if c, err := NewCreateContentFromAuthEvents(provider, a.userIDQuerier); err == nil {
+		if c, err := NewCreateContentFromAuthEvents(provider, a.userIDQuerier); err == nil && e != nil {
 			a.createEvent = e
 			a.create = c
 			a.creators = CreatorsFromCreateEvent(e)
